@@ -279,16 +279,17 @@ template<> struct elem_traits<Semi> {
 // ---- plain value element types (serialization coverage): no lifetime tracking, values mapped from/to i64
 template<> struct elem_traits<double> {
 	using E    = double;
-	using conv = double;
+	using conv = i64;  // another arithmetic type of the same size: converting it is not copying its bits (seeded C04-r7-m1)
 	static constexpr bool tracked = false, throwing_move = false, trivial = true;
 	static auto make(i64 v) -> E { return static_cast<double>(v); }
-	static auto make_conv(i64 v) -> conv { return static_cast<double>(v); }
+	static auto make_conv(i64 v) -> conv { return v; }
 	static auto read(E const& e, bool& /*ok*/) -> i64 {
 		i64 r;
 		static_assert(sizeof r == sizeof e);
 		if(e == static_cast<double>(static_cast<i64>(e)) && e > -1e15 && e < 1e15) return static_cast<i64>(e);
-		std::memcpy(&r, &e, sizeof r);  // not an integer: return the bit pattern (a fresh block reads as FRESH_I64)
-		return r;
+		std::memcpy(&r, &e, sizeof r);  // not an integer: a fresh block reads as FRESH_I64, anything else as its bit pattern with the top
+		// bits flipped (the bits of an int64 copied into a double must not read as that int64: seeded C04-r7-m1)
+		return r == FRESH_I64 ? r : (r ^ static_cast<i64>(0x7FF0000000000000ull));
 	}
 	static void write(E& e, i64 v) { e = static_cast<double>(v); }
 	static constexpr i64 value_init = 0;
